@@ -152,7 +152,7 @@ func c08RunOne(dir, comp, name string, data []byte) (out Sx, aux []byte, meas ui
 	}
 	if comp == "ssh1" {
 		if ct := ssh1Ciphertext(data); len(ct) > 0 {
-			aux = ssh1.VerifDecrypt(ct)
+			aux = ssh1.VerifDecryptEmptyPassphrase(ct)
 		}
 	}
 	return out, aux, b.TotalAlloc - a.TotalAlloc, dt.Microseconds(), cpu
@@ -1003,7 +1003,7 @@ func randDER(r *Rng, depth int) *derNode {
 	return &derNode{tag: tag, content: r.Bytes(ln)}
 }
 
-func derLen(n int) []byte {
+func c08_derLen(n int) []byte {
 	switch {
 	case n < 128:
 		return []byte{byte(n)}
@@ -1029,7 +1029,7 @@ func (n *derNode) encode() []byte {
 	if n.tag == 0x1F { // high-tag-number form
 		out = append(out, 0x81, 0x05)
 	}
-	out = append(out, derLen(len(body))...)
+	out = append(out, c08_derLen(len(body))...)
 	return append(out, body...)
 }
 
@@ -1131,7 +1131,7 @@ func c08GenDER(c *Ctx, add func(comp, tag, name string, data []byte)) {
 }
 
 func derWrap(tag byte, body []byte) []byte {
-	return append(append([]byte{tag}, derLen(len(body))...), body...)
+	return append(append([]byte{tag}, c08_derLen(len(body))...), body...)
 }
 
 func derDeep(depth int) []byte {
@@ -1551,9 +1551,9 @@ func c08GenInspect(c *Ctx, add func(comp, tag, name string, data []byte), addBig
 		rep("ppk-many-lines"+s, "k.ppk", "PuTTY-User-Key-File-3: ssh-ed25519\nEncryption: none\nComment: c\nPublic-Lines: 1000000\n", "AAAA\n", "", sz)
 		// DER: many minimal items, wide and deep
 		body := (sz - 8) / 2
-		addBig("inspect", "der-many-nulls"+s, "d.der", &c08Recipe{append([]byte{0x30}, derLen(body*2)...), []byte{5, 0}, body, nil})
-		addBig("inspect", "der-many-empty-strings"+s, "d.der", &c08Recipe{append([]byte{0x30}, derLen(body*2)...), []byte{0x0c, 0}, body, nil})
-		addBig("inspect", "der-many-bad-times"+s, "d.der", &c08Recipe{append([]byte{0x30}, derLen(body*2)...), []byte{0x17, 0}, body, nil})
+		addBig("inspect", "der-many-nulls"+s, "d.der", &c08Recipe{append([]byte{0x30}, c08_derLen(body*2)...), []byte{5, 0}, body, nil})
+		addBig("inspect", "der-many-empty-strings"+s, "d.der", &c08Recipe{append([]byte{0x30}, c08_derLen(body*2)...), []byte{0x0c, 0}, body, nil})
+		addBig("inspect", "der-many-bad-times"+s, "d.der", &c08Recipe{append([]byte{0x30}, c08_derLen(body*2)...), []byte{0x17, 0}, body, nil})
 		add("inspect", "der-deep"+s, "d.der", derDeepBig(sz))
 		add("inspect", "b64-der-many-nulls"+s, "d.b64", []byte(base64.StdEncoding.EncodeToString(derWrap(0x30, bytes.Repeat([]byte{5, 0}, (sz*3/4-8)/2)))))
 		add("inspect", "b64-of-b64"+s, "d.b64", []byte(base64.StdEncoding.EncodeToString([]byte(base64.StdEncoding.EncodeToString(c.R.Bytes(sz*9/16-8))))))
